@@ -111,10 +111,12 @@ func shapeOf(t types.Type) []leaf {
 		return []leaf{{"", SInt, t}}
 	case *types.Slice:
 		it := types.Typ[types.Int]
-		return []leaf{{"#arr", SInt, it}, {"#off", SInt, it}, {"#len", SInt, it}, {"#cap", SInt, it}}
+		_ = it
+		return []leaf{{"", SSlc, t}}
 	case *types.Interface:
 		it := types.Typ[types.Int]
-		return []leaf{{"#typ", SInt, it}, {"#val", SInt, it}}
+		_ = it
+		return []leaf{{"", SIfc, t}}
 	case *types.Struct:
 		var out []leaf
 		for i := 0; i < u.NumFields(); i++ {
@@ -147,7 +149,11 @@ func flatten(v Val) []*Term {
 	switch v.K {
 	case KScalar:
 		return []*Term{v.S}
-	case KSlice, KIface, KStruct, KTuple:
+	case KSlice:
+		return []*Term{MkSlc(v.F[0].S, v.F[1].S, v.F[2].S, v.F[3].S)}
+	case KIface:
+		return []*Term{MkIfc(v.F[0].S, v.F[1].S)}
+	case KStruct, KTuple:
 		var out []*Term
 		for _, f := range v.F {
 			out = append(out, flatten(f)...)
@@ -165,10 +171,12 @@ func unflatten(t types.Type, ts *[]*Term) Val {
 	switch u := t.Underlying().(type) {
 	case *types.Slice:
 		it := types.Typ[types.Int]
-		return Val{K: KSlice, T: t, F: []Val{scalar(take(), it), scalar(take(), it), scalar(take(), it), scalar(take(), it)}}
+		x := take()
+		return Val{K: KSlice, T: t, F: []Val{scalar(SlcGet("s_arr", x), it), scalar(SlcGet("s_off", x), it), scalar(SlcGet("s_len", x), it), scalar(SlcGet("s_cap", x), it)}}
 	case *types.Interface:
 		it := types.Typ[types.Int]
-		return Val{K: KIface, T: t, F: []Val{scalar(take(), it), scalar(take(), it)}}
+		x := take()
+		return Val{K: KIface, T: t, F: []Val{scalar(IfcGet("i_typ", x), it), scalar(IfcGet("i_val", x), it)}}
 	case *types.Struct:
 		v := Val{K: KStruct, T: t}
 		for i := 0; i < u.NumFields(); i++ {
@@ -265,20 +273,86 @@ func zeroVal(t types.Type) Val {
 	ls := shapeOf(t)
 	ts := make([]*Term, len(ls))
 	for i, l := range ls {
-		switch l.sort {
-		case SInt:
-			ts[i] = IntLit(0)
-		case SBool:
-			ts[i] = False
-		case SReal:
-			ts[i] = RealLit("0.0")
-		case SStr:
-			ts[i] = EmptyStr()
-		default:
-			panic("zero of sort " + l.sort)
-		}
+		ts[i] = zeroOfSort(l.sort)
 	}
 	return valFromLeaves(t, ts)
+}
+
+func zeroOfSort(s Sort) *Term {
+	switch s {
+	case SInt:
+		return IntLit(0)
+	case SBool:
+		return False
+	case SReal:
+		return RealLit("0.0")
+	case SStr:
+		return EmptyStr()
+	case SSlc:
+		z := IntLit(0)
+		return MkSlc(z, z, z, z)
+	case SIfc:
+		return MkIfc(IntLit(0), IntLit(0))
+	}
+	panic("zero of sort " + s)
+}
+
+const (
+	SSlc Sort = "Slc"
+	SIfc Sort = "Ifc"
+)
+
+const dtPrelude = "(declare-datatypes ((Slc 0)) (((mkslc (s_arr Int) (s_off Int) (s_len Int) (s_cap Int)))))\n" +
+	"(declare-datatypes ((Ifc 0)) (((mkifc (i_typ Int) (i_val Int)))))\n"
+
+func MkSlc(a, o, l, c *Term) *Term {
+	// mk(acc(x)..) == x
+	if a.kind == 'a' && a.op == "s_arr" {
+		x := a.args[0]
+		if o == SlcGet("s_off", x) && l == SlcGet("s_len", x) && c == SlcGet("s_cap", x) {
+			return x
+		}
+	}
+	return App("mkslc", SSlc, a, o, l, c)
+}
+
+func SlcGet(acc string, x *Term) *Term {
+	if x.kind == 'a' && x.op == "mkslc" {
+		switch acc {
+		case "s_arr":
+			return x.args[0]
+		case "s_off":
+			return x.args[1]
+		case "s_len":
+			return x.args[2]
+		case "s_cap":
+			return x.args[3]
+		}
+	}
+	if x.kind == 'a' && x.op == "ite" {
+		return Ite(x.args[0], SlcGet(acc, x.args[1]), SlcGet(acc, x.args[2]))
+	}
+	return App(acc, SInt, x)
+}
+
+func MkIfc(t, v *Term) *Term {
+	if t.kind == 'a' && t.op == "i_typ" && v == IfcGet("i_val", t.args[0]) {
+		return t.args[0]
+	}
+	return App("mkifc", SIfc, t, v)
+}
+
+func IfcGet(acc string, x *Term) *Term {
+	if x.kind == 'a' && x.op == "mkifc" {
+		if acc == "i_typ" {
+			return x.args[0]
+		}
+		return x.args[1]
+	}
+	if x.kind == 'a' && x.op == "ite" {
+		return Ite(x.args[0], IfcGet(acc, x.args[1]), IfcGet(acc, x.args[2]))
+	}
+	return App(acc, SInt, x)
 }
 
 func freshVal(hint string, t types.Type) Val {
@@ -387,6 +461,24 @@ func eqVal(a, b Val) *Term {
 			return StrEq(a.S, b.S)
 		}
 		return Eq(a.S, b.S)
+	}
+	if (a.K == KSlice && b.K == KSlice) || (a.K == KIface && b.K == KIface) {
+		xa, xb := flatten(a)[0], flatten(b)[0]
+		if !(xa.kind == 'a' && (xa.op == "mkslc" || xa.op == "mkifc")) && !(xb.kind == 'a' && (xb.op == "mkslc" || xb.op == "mkifc")) {
+			return Eq(xa, xb)
+		}
+		var cs []*Term
+		for i := range a.F {
+			cs = append(cs, Eq(a.F[i].S, b.F[i].S))
+		}
+		return And(cs...)
+	}
+	if (a.K == KStruct && b.K == KStruct || a.K == KTuple && b.K == KTuple) && len(a.F) == len(b.F) {
+		var cs []*Term
+		for i := range a.F {
+			cs = append(cs, eqVal(a.F[i], b.F[i]))
+		}
+		return And(cs...)
 	}
 	fa, fb := flatten(a), flatten(b)
 	if len(fa) != len(fb) {
